@@ -72,6 +72,14 @@ def _callees(p: Program, fi: FuncInfo) -> List[FuncInfo]:
                     g = g.attrs.get("__init__")  # a small class of the layer instantiated: its constructor runs
             if isinstance(g, FuncInfo):
                 out.append(g)
+    # methods handed on as values (a tuple of pipeline stages run by a loop: `for stage in (self._annotate, self._number): ...`)
+    called = {id(n.func) for n in ast.walk(fi.node) if isinstance(n, ast.Call)}
+    for n in ast.walk(fi.node):
+        if isinstance(n, ast.Attribute) and id(n) not in called and isinstance(n.ctx, ast.Load) and isinstance(n.value, ast.Name) \
+                and n.value.id in ("self", "cls") and fi.owner is not None:
+            _, g = p.class_attr_def(fi.owner, n.attr)
+            if isinstance(g, FuncInfo) and g.kind in ("method", "classmethod", "staticmethod") and g not in out:
+                out.append(g)
     return out
 
 
@@ -604,10 +612,16 @@ def manager_phases(p: Program) -> dict:
     def roles_of(f):
         return [role for role, pred in preds.items() if _tree_mentions(p, f, pred)]
 
+    def is_stage_table(f):
+        # a function that only hands out other methods (`return (self._annotate, self._number)`): the stages are the phases
+        body = [st for st in f.node.body if not (isinstance(st, ast.Expr) and isinstance(st.value, ast.Constant))]
+        return len(body) == 1 and isinstance(body[0], ast.Return) and isinstance(body[0].value, (ast.Tuple, ast.List)) and body[0].value.elts \
+            and all(isinstance(e, ast.Attribute) and isinstance(e.value, ast.Name) and e.value.id in ("self", "cls") for e in body[0].value.elts)
+
     def flatten(level, depth=2):
         res = []
         for f in level:
-            if len(roles_of(f)) > 1 and depth > 0 and f is not entry:
+            if ((len(roles_of(f)) > 1) or is_stage_table(f)) and depth > 0 and f is not entry:
                 res.extend(x for x in flatten(_callees(p, f), depth - 1) if x not in res)
             elif f not in res:
                 res.append(f)
@@ -819,7 +833,51 @@ def canonical_qualname(p: Program, role: str) -> str:
             "annotate": lambda: manager_phases(p)["annotate"], "get_regex": lambda: regex_getter(p)}[role]().qualname
 
 
-def match_call_tree(p: Program, ci, root: str = "_match") -> List[FuncInfo]:
+def match_slot(p: Program) -> str:
+    """name of the (cached) property of StructuredRecord that holds the vetted structure match -- `_match` at the pinned
+    commit; found by role when it goes by another name (a rename that keeps `_match` as a forwarding alias): the property
+    defined on StructuredRecord whose evaluation runs the pattern getter"""
+    cached = getattr(p, "_match_slot", None)
+    if cached is not None:
+        return cached
+    from .loader import ClassInfo
+
+    sr = p.get_class("moclo.core._structured.StructuredRecord")
+    name = None
+    if isinstance(sr.attrs.get("_match"), FuncInfo):
+        name = "_match"
+    else:
+        getter = regex_getter(p)
+        cands = []
+        for nm, raw in sr.attrs.items():
+            if not (isinstance(raw, FuncInfo) and raw.kind == "property"):
+                continue
+            seen, todo = set(), [raw]
+            runs_getter = False
+            while todo and not runs_getter:
+                f = todo.pop()
+                if id(f) in seen:
+                    continue
+                seen.add(id(f))
+                me = f.node.args.args[0].arg if f.node.args.args else "self"
+                for n in ast.walk(f.node):
+                    if isinstance(n, ast.Attribute) and isinstance(n.value, ast.Name) and n.value.id == me:
+                        if n.attr == getter.name:
+                            runs_getter = True
+                        g = sr.attrs.get(n.attr)
+                        if isinstance(g, FuncInfo) and g.kind != "property":
+                            todo.append(g)
+            if runs_getter:
+                cands.append(nm)
+        if len(cands) == 1:
+            name = cands[0]
+    if name is None:
+        raise AnalysisError("anchor vanished: StructuredRecord._match (the property that holds the structure match is not recognised)")
+    p._match_slot = name
+    return name
+
+
+def match_call_tree(p: Program, ci, root: Optional[str] = None) -> List[FuncInfo]:
     """every function that takes part in the evaluation of ``ci()._match``: the
     implementations of `_match` on the MRO and whatever they reach through
     self.<name> (hooks, split-off helpers, a separately cached raw match),
@@ -827,7 +885,7 @@ def match_call_tree(p: Program, ci, root: str = "_match") -> List[FuncInfo]:
     from .loader import ClassInfo
 
     skip = {regex_getter(p).name, "structure"}
-    names, todo, out = set(), [root], []
+    names, todo, out = set(), [root or match_slot(p)], []
     while todo:
         nm = todo.pop()
         if nm in names:
@@ -855,6 +913,14 @@ def match_call_tree(p: Program, ci, root: str = "_match") -> List[FuncInfo]:
             if isinstance(n, ast.Call) and isinstance(n.func, (ast.Name, ast.Attribute)):
                 try:
                     g = p.resolve_expr(f.module, n.func) if (isinstance(n.func, ast.Name) or _is_module_attr(p, f, n.func)) else None
+                except Exception:
+                    g = None
+                if isinstance(g, FuncInfo) and g.owner is None and g.module.name.startswith("moclo.core") and g not in out:
+                    out.append(g)
+            elif isinstance(n, ast.Name) and isinstance(n.ctx, ast.Load):
+                # a module-level function of the core package handed on as a value (a pipeline stage: `return (locate, screen)`)
+                try:
+                    g = p.resolve_expr(f.module, n)
                 except Exception:
                     g = None
                 if isinstance(g, FuncInfo) and g.owner is None and g.module.name.startswith("moclo.core") and g not in out:
